@@ -155,8 +155,43 @@ def preserve(truth_i, c, active):
         return _count(after, target, method) == 1
 
 
+def failed_render(truth_i, c):
+    """rendering the re-emitted module fails (the formatter raises): the target module, surroundings included, keeps every byte"""
+    import doctrans.emit
+
+    c = realize(c)
+    with untraced():
+        tk, sur, pos, nl, st, method = TABLE[c]
+        truth, target = KINDS[truth_i], KINDS[tk]
+        if truth == target:
+            return True
+        files, text = cell_files(truth_i, c)
+        fs = FS(files)
+        real = doctrans.emit.format_str
+
+        def failing(*a, **kw):
+            raise RuntimeError("injected formatter fault")
+
+        doctrans.emit.format_str = failing
+        try:
+            try:
+                run_sync(fs, truth, (truth, target), method)
+            except (RuntimeError, AssertionError):
+                pass
+        finally:
+            doctrans.emit.format_str = real
+        return fs.files.get(FILES[target]) == files[FILES[target]]
+
+
 def obligations(tier, seed):
     obs = []
+    for t in range(3):
+        obs.append(Ob(name="failed_render_truth_%s" % KINDS[t], params=[("c", "int")],
+                      pre=["0 <= c < %d" % len(TABLE), "c %% 6 == %d" % t] if tier == "quick" else ["0 <= c < %d" % len(TABLE)],
+                      body="H.failed_render(%d, c)" % t, witness=(t if tier == "quick" else 0,), kind="F",
+                      bounds="truth %s; target modules with surrounding code (%s of the %d cells of the C11 table); the code formatter raises while the "
+                      "re-emitted module is rendered: the target file keeps every byte" % (KINDS[t], "every sixth" if tier == "quick" else "all", len(TABLE)),
+                      timeout=280 if tier == "quick" else 900, path_timeout=120, funcs=["doctrans.emit.file", "doctrans.conformance._conform_filename"]))
     for sid in ("c11_between", "c11_after", "c11_first"):
         skel, k = C15.SKELS[sid]
         for L in (1, 2):
